@@ -213,6 +213,20 @@ Definition learn (ci : cinfo) (p : Z) (st : style) : cinfo :=
 Definition learn_all (ci : cinfo) (l : list (Z * style)) : cinfo :=
   fold_left (fun c ps => learn c (fst ps) (snd ps)) l ci.
 
+(* a `commodity SYM / format AMOUNT` directive (textual.cc commodity_format_directive): AMOUNT is read like any amount -
+   teaching the commodity its flags and decimals - and COMMODITY_STYLE_NO_MIGRATE is set: from then on amount_t::parse
+   (the `! no_migrate_style` guard) lets no amount teach this commodity anything *)
+Record finfo : Type := mkFI { fi_info : cinfo; fi_fixed : bool }.
+
+Definition learn_f (f : finfo) (p : Z) (st : style) : finfo :=
+  if fi_fixed f then f else mkFI (learn (fi_info f) p st) false.
+
+Definition fix_format (f : finfo) (p : Z) (st : style) : finfo :=
+  mkFI (fi_info (learn_f f p st)) true.
+
+Definition learn_f_all (f : finfo) (l : list (Z * style)) : finfo :=
+  fold_left (fun c ps => learn_f c (fst ps) (snd ps)) l f.
+
 (* ---- the reader proper: split the text into sign, symbol, side, space, quantity ---- *)
 
 Fixpoint take_while (f : Z -> bool) (s : str) : str * str :=
